@@ -17,7 +17,7 @@ pub fn outcome_of(sym: &str, rng: &mut Rng, apps: &[AppSpec]) -> RespSpec {
         "s4xx" => RespSpec::Reply(ReplySpec::status(*rng.pick(&[400u16, 403, 404, 429]))),
         "s5xx" => RespSpec::Reply(ReplySpec::status(*rng.pick(&[500u16, 502, 503]))),
         "s3xx" => RespSpec::Reply(ReplySpec::status(*rng.pick(&[301u16, 304]))),
-        "s+ra" => RespSpec::Reply(ReplySpec::status(*rng.pick(&[400u16, 503, 429])).with_retry_after(*rng.pick(&[&b"0"[..], b"30", b"86400", b"99999999"]))),
+        "s+ra" => RespSpec::Reply(ReplySpec::status(*rng.pick(&[400u16, 503, 429])).with_retry_after(*rng.pick(&[&b"0"[..], b"30", b"86400", b"99999999", b"4294967296", b"18446744073709551615", b"00000000000000000000060"]))),
         "forged" => {
             let (doc, _) = gen_doc(rng, apps, None, true);
             let e = rng.pick(&[EtagSpec::Absent, EtagSpec::FlipSig, EtagSpec::ForeignKey, EtagSpec::OtherBody, EtagSpec::WrongKeyId]).clone();
@@ -202,7 +202,7 @@ pub fn run(args: &Args, r: &mut Report) {
             for a in c.attempts.iter_mut().chain(c.reports.iter_mut()) {
                 if let RespSpec::Reply(rep) = a {
                     if rng.chance(1, 4) {
-                        rep.headers.push(("X-Retry-After".into(), rng.pick(&[&b"0"[..], b"60", b"86400", b"100000"]).to_vec()));
+                        rep.headers.push(("X-Retry-After".into(), rng.pick(&[&b"0"[..], b"60", b"86400", b"100000", b"4294967296", b"18446744073709551615"]).to_vec()));
                     }
                 }
             }
